@@ -53,9 +53,7 @@ pub trait Store {
     /// Get all the latest gossip messages of all nodes, filtered by inventory filter and
     /// announcement timestamps.
     ///
-    /// # Panics
-    ///
-    /// Panics if `from` > `to`.
+    /// Returns no messages if `from` > `to`.
     ///
     fn filtered<'a>(
         &'a self,
@@ -191,7 +189,8 @@ impl Store for Database {
              WHERE timestamp >= ?1 and timestamp < ?2
              ORDER BY timestamp, node, type",
         )?;
-        assert!(*from <= *to);
+        // An inverted range matches nothing. This input is controlled by remote peers.
+        let to = if *from <= *to { to } else { from };
 
         stmt.bind((1, &from))?;
         stmt.bind((2, &to))?;
